@@ -207,6 +207,8 @@ def run(ctx):
         return d
 
     distinct = set()
+    late = []          # correspondence differences: reported after the oracle's own violations
+    mismatch = set()
     for i, (gi, mi, kind, s, naming) in enumerate(flat):
         c, m = impl[i], model[i]
         tr = s.get("truth", {})
@@ -219,15 +221,11 @@ def run(ctx):
                 bump("features", ft)
         if A.nontrivial(s):
             distinct.add(mlines[i] + "/" + naming)
-        # ---- correspondence: exact
         if not c.startswith("T="):
             violation("C05: implementation %s" % c[:60], "impl_failure", payload(i))
             continue
         bump("model_type", fields(c)["T"])
-        if c != m:
-            violation("C05 correspondence: analyser and model differ", "correspondence", payload(i))
-            continue
-        # ---- oracle (a): well-formedness of the real AnalyserModel
+        # ---- oracle (a): well-formedness of the real AnalyserModel (AnalysisSpec.wf_failures, extracted)
         w = wf_impl[i]
         if w not in ("WF=ok", "WF=na"):
             codes = w[3:].split(",") if w.startswith("WF=") else ["?"]
@@ -245,8 +243,11 @@ def run(ctx):
             if demanded:
                 violation("C05 oracle: valid AnalyserModel is not well formed: %s" % ", ".join(WF_NAMES.get(x, x) for x in demanded),
                           "wf", payload(i))
-        if wf_model[i] != wf_impl[i]:
-            violation("C05: well-formedness verdict differs between model and implementation", "wf_diff", payload(i, {"wf_model": wf_model[i]}))
+        # ---- correspondence: exact
+        if c != m:
+            if len(late) < 5:
+                late.append(("C05 correspondence: analyser and model differ", "correspondence", payload(i)))
+            mismatch.add(i)
 
     # ---- oracle (b): ground truth; (c): invariance
     start = 0
@@ -314,6 +315,10 @@ def run(ctx):
             if bad:
                 violation("C05 oracle: ground truth: %s" % bad, "truth", payload(i, {"expected": tr}))
 
+    for what, name, content in late:
+        violation(what, name, content)
+    if mismatch:
+        ctx.log("correspondence: %d of %d documents differ" % (len(mismatch), len(flat)))
     ctx.cov["evaluations"] = len(flat)
     ctx.cov["distinct_nontrivial"] = len(distinct)
     ctx.cov["traces_validated_against_impl"] = len(flat)
